@@ -728,6 +728,7 @@ func init() {
 	rule12 := "each case is a history of 1-24 (thorough 60) commits over 1-4 IAVL stores + one transient store with a pruning policy (the three named strategies or " +
 		"keepRecent in {0,1,2,5,100} x keepEvery in {0,1,2,3,5,10000}), eager loading, per-block sets/overwrites/deletes (keys reused across blocks), transient writes, reopen points and (1 block in 5) a restart one block behind: LoadVersion(h-1) when retained, " +
 		"then the block re-executed identically must commit without panic to the same id; (1 block in 6) a LoadVersion of a pruned/future version on the live object must be refused and leave it unchanged; " +
+		"(1 block in 4) while the block's writes are uncommitted a copy of the live store is loaded at the latest committed version: it must show that version's content, leave the live store alone, and show it again after the commit when still retained; " +
 		"after every commit: version step, commit id, content, transient store empty; at every reopen and at the end a fresh store loads every version in [1,latest+1]: retained => committed content " +
 		"and id, pruned/future => error. Non-trivial = the history has a pruned version, a retained non-latest version and a reopen after a delete; distinctness = hash of the program"
 	register(&PropDef{ID: "C12", Rule: rule12, Gen: genC12, New: func() interface{} { return &c12Prog{} }, Exec: execC12,
@@ -736,7 +737,11 @@ func init() {
 		Rule: "histories as in C12 (<=14 commits); for each commit marked for interruption (always the last one) the durable write units it issues are counted on a dry run (W) and EVERY crash point k in [0,W] " +
 			"is executed: clone the database as of the previous commit, run the block and Commit with units k.. dropped, discard the object, reopen: LoadLatestVersion succeeds, version is old or new, " +
 			"hash and full content of every store equal that version's, replaying the block gives the uninterrupted hash, and all retained versions load afterwards. One evaluation = one (history, commit, k); " +
-			"non-trivial = 0<k<W with >=2 stores changed in the block, or k after a pruning delete; distinctness = hash of (height, k, unit log)",
+			"non-trivial = 0<k<W with >=2 stores changed in the block, or k after a pruning delete; distinctness = hash of (height, k, unit log). One case in five is an application-level history instead " +
+			"(2-8 blocks, thorough 14, of transactions, evidence, absences, custom/store queries and CheckTx/simulate traffic on a whole node over the instrumented database, pruning keepRecent in {0,1,5,100} x " +
+			"keepEvery in {0,1,3,10000}): for the last commit and up to two earlier ones (never the first) the Commit's write units are logged with their values, every prefix k in [0,W] is applied to a clone of " +
+			"the pre-commit database and a NEW application is opened on it: it loads, reports the old or (k=W only) the new height with that height's app hash, and re-executing the interrupted block gives the " +
+			"uninterrupted DeliverTx codes and app hash; one evaluation = one (history, block, k), non-trivial = 0<k<W",
 		Gen: genC13, New: func() interface{} { return &c12Prog{} }, Exec: execC13,
 		Assum: []string{"a batch write is atomic and durable once issued (LevelDB contract); crash = process death, not media loss",
 			"crash points are the boundaries between durable write units (batch writes and direct sets/deletes) seen by the database"}})
